@@ -143,6 +143,9 @@ func loadRegions(
 	// the message packet to exceed the grpc message size limit (4MB). Here we use
 	// a variable rangeLimit to work around.
 	rangeLimit := maxKVRangeLimit
+	// Regions removed from storage during this pass; a page fetched before the
+	// removal may still contain them, they must not be delivered any more.
+	removed := make(map[uint64]struct{})
 	for {
 		startKey := regionPath(nextID)
 		_, res, err := kv.LoadRange(startKey, endKey, rangeLimit)
@@ -163,11 +166,15 @@ func loadRegions(
 			}
 
 			nextID = region.GetId() + 1
+			if _, ok := removed[region.GetId()]; ok {
+				continue
+			}
 			overlaps := f(NewRegionInfo(region, nil))
 			for _, item := range overlaps {
 				if err := deleteRegion(kv, item.GetMeta()); err != nil {
 					return err
 				}
+				removed[item.GetID()] = struct{}{}
 			}
 		}
 
